@@ -22,11 +22,17 @@ CONSTANTS Dir,          \* "push" | "pull"
           MaxVouchers,  \* further vouchers the initiator's application sends / voucher results the responder's application sends (each)
           OldEnds,      \* ways in which a transport request SUPERSEDED by a restart may still report its end, late, to either side:
                         \*   subset of {"cancelled" (OnRequestCancelled), "error" (OnChannelCompleted with an error), "silent"}
+          MaxSendFails, \* SendMessage calls (either node, any step) that FAIL: the message is not delivered and the manager sees the error
+          MaxSkip,      \* ... each after at most MaxSkip successful sends (counted over both nodes)
           MaxLen,       \* history bound
           DumpAtEnd     \* BOOLEAN: print the history when the run is over (simulation)
 
-VARIABLES ch, net, gs, todo, lim, pauses, restarts, closes, vsent, bounces, h, done
-vars == <<ch, net, gs, todo, lim, pauses, restarts, closes, vsent, bounces, h, done>>
+VARIABLES ch, net, gs, todo, lim, pauses, restarts, closes, vsent, bounces, h, done,
+          sfails,       \* failed sends so far
+          failIn        \* oracle: number of sending steps that still succeed before the next failing one (chosen ahead, so that every use of a
+                        \* step's stimulus - Handle, Ret, Reply - agrees on whether its first SendMessage fails)
+vars == <<ch, net, gs, todo, lim, pauses, restarts, closes, vsent, bounces, h, done, sfails, failIn>>
+FailNow == sfails < MaxSendFails /\ failIn = 0
 
 Limits == CASE LimitsId = "l2" -> <<2, 0>> [] LimitsId = "l3" -> <<3, 0>> [] LimitsId = "l2_4" -> <<2, 4, 0>> [] OTHER -> << >>
 Pull == Dir = "pull"
@@ -57,9 +63,12 @@ Init ==
   /\ gs = IF Pull THEN [NoGs EXCEPT !.st = "open", !.ext = NewReq, !.opens = 1] ELSE NoGs
   /\ todo = IF Pull THEN << [node |-> "A", kind |-> "OnChannelOpened", i |-> 0] >> ELSE << >>
   /\ lim = 1 /\ pauses = [n \in {"A","B"} |-> 0] /\ restarts = 0 /\ closes = 0 /\ vsent = [n \in {"A","B"} |-> 0] /\ bounces = 0 /\ h = << >> /\ done = FALSE
+  /\ sfails = 0 /\ failIn \in (IF MaxSendFails > 0 THEN 0..MaxSkip ELSE {0})
 
 (* ---- one stimulus on node n: apply Mgr!Handle, route its outputs ---- *)
-StimOf(n, kind, from, msg, val, args) == [Stim0 EXCEPT !.kind = kind, !.c = "c1", !.from = from, !.msg = msg, !.val = val, !.args = args]
+StimOf(n, kind, from, msg, val, args) == [Stim0 EXCEPT !.kind = kind, !.c = "c1", !.from = from, !.msg = msg, !.val = val, !.args = args,
+                                                      !.sendFail = IF FailNow THEN <<TRUE>> ELSE << >>]
+NoFail == UNCHANGED <<sfails, failIn>>
 
 ApplyTr(g, n, tr) ==      \* effect of node n's transport calls on the link, in order
   LET F[i \in 0..Len(tr)] ==
@@ -75,7 +84,8 @@ ApplyTr(g, n, tr) ==      \* effect of node n's transport calls on the link, in 
           [] OTHER -> p
   IN F[Len(tr)]
 OpensIn(tr) == Len(SelectSeq(tr, LAMBDA t : t.call = "open"))
-SendsIn(netOut) == LET s == SelectSeq(netOut, LAMBDA x : x.what = "send") IN [i \in 1..Len(s) |-> [to |-> s[i].to, msg |-> s[i].msg]]
+SendsIn(netOut) == LET s == SelectSeq(netOut, LAMBDA x : x.what = "send" /\ x.ok) IN      \* a failed send delivers nothing
+  [i \in 1..Len(s) |-> [to |-> s[i].to, msg |-> s[i].msg]]
 
 (* Do(n, s, g0): node n handles stimulus s; g0 = link state to start from (already updated by the caller) *)
 Do(n, s, g0, net0, todo0) ==
@@ -89,6 +99,12 @@ Do(n, s, g0, net0, todo0) ==
      /\ gs' = ApplyTr(g0, n, o.tr)
      /\ todo' = todo0 \o [i \in 1..OpensIn(o.tr) |-> [node |-> n, kind |-> "OnChannelOpened", i |-> 0]]
      /\ h' = Append(h, [node |-> n, stim |-> s])
+     \* the oracle counts steps that really send; a step that sends nothing leaves it alone (its sendFail script is then without effect)
+     /\ LET sent == \E k \in 1..Len(o.net) : o.net[k].what = "send" IN
+          /\ sfails' = sfails + (IF FailNow /\ sent THEN 1 ELSE 0)
+          /\ failIn' \in (IF sfails' >= MaxSendFails THEN {0}
+                          ELSE IF FailNow /\ sent THEN 0..MaxSkip
+                          ELSE IF sent THEN {failIn - 1} ELSE {failIn})
 
 Ret(n, s) == Handle(s, n, ch[n].has, IdOf(n), ch[n].rec, {"vt"}, ch[n].cache).ret
 Reply(n, s) == Handle(s, n, ch[n].has, IdOf(n), ch[n].rec, {"vt"}, ch[n].cache).reply
@@ -158,7 +174,7 @@ BlockTodo ==
          s == StimOf(t.node, t.kind, Other(t.node), NoMsg, Val0, BArgs(t.i))
          g1 == IF t.kind = "OnDataReceived" /\ Ret(t.node, s) \in {"pause","other"} THEN [gs EXCEPT !.rqPaused = TRUE] ELSE gs
      IN (IF t.kind = "OnDataSent" /\ ~Uniq(t.i)
-         THEN UNCHANGED <<ch, net, gs, h>> /\ todo' = Tail(todo)       \* nothing on the wire: no sent accounting
+         THEN UNCHANGED <<ch, net, gs, h>> /\ todo' = Tail(todo) /\ NoFail      \* nothing on the wire: no sent accounting
          ELSE Do(t.node, s, g1, net, Tail(todo)))
   /\ UNCHANGED <<lim, pauses, restarts, closes, vsent, bounces, done>>
 
@@ -202,7 +218,7 @@ GsOldEnd(n, how) ==
   /\ LET g1 == [gs EXCEPT !.old = @ \ {n}] IN
       (CASE how = "cancelled" -> Do(n, StimOf(n, "OnRequestCancelled", Other(n), NoMsg, Val0, ErrArgs), g1, net, todo)
          [] how = "error"     -> Do(n, StimOf(n, "OnChannelCompleted", Other(n), NoMsg, Val0, ErrArgs), g1, net, todo)
-         [] OTHER             -> (gs' = g1 /\ UNCHANGED <<ch, net, todo, h>>))
+         [] OTHER             -> (gs' = g1 /\ UNCHANGED <<ch, net, todo, h>> /\ NoFail))
   /\ UNCHANGED <<lim, pauses, restarts, closes, vsent, bounces, done>>
 
 (* either application closes (cancels) the channel *)
@@ -224,8 +240,8 @@ Bounce(n) ==
             THEN [NoGs EXCEPT !.opens = gs.opens,
                               !.old = (gs.old \ {n}) \cup (IF OldEnds # {} /\ (Other(n) = Rq \/ gs.arrived) THEN {Other(n)} ELSE {})]
             ELSE [gs EXCEPT !.old = @ \ {n}, !.toRq = IF n = Rq THEN << >> ELSE @, !.toRs = IF n = Rs THEN << >> ELSE @]
-  /\ h' = Append(h, [node |-> n, stim |-> StimOf(n, "reopen", Other(n), NoMsg, Val0, ZeroArgs)])
-  /\ bounces' = bounces + 1
+  /\ h' = Append(h, [node |-> n, stim |-> [StimOf(n, "reopen", Other(n), NoMsg, Val0, ZeroArgs) EXCEPT !.sendFail = << >>]])
+  /\ bounces' = bounces + 1 /\ NoFail
   /\ UNCHANGED <<todo, lim, pauses, restarts, closes, vsent, done>>
 
 (* the applications exchange further vouchers: the initiator sends a voucher (a Voucher request on the network), the responder a voucher  *)
@@ -247,7 +263,7 @@ Quiescent == net = << >> /\ todo = << >> /\ gs.toRq = << >> /\ gs.toRs = << >>
 Dump == /\ DumpAtEnd /\ ~done /\ (Len(h) = MaxLen \/ (Quiescent /\ ch["A"].rec.status \in Terminal /\ (~ch["B"].has \/ ch["B"].rec.status \in Terminal)))
         /\ PrintT(<<"@@case", ToJson([dir |-> Dir, nblocks |-> NBlocks, uniqueBytes |-> UniqueBytes, steps |-> h,
                                        expA |-> ch["A"].rec, expB |-> ch["B"].rec, hasB |-> ch["B"].has])>>)
-        /\ done' = TRUE /\ UNCHANGED <<ch, net, gs, todo, lim, pauses, restarts, closes, vsent, bounces, h>>
+        /\ done' = TRUE /\ UNCHANGED <<ch, net, gs, todo, lim, pauses, restarts, closes, vsent, bounces, h, sfails, failIn>>
 
 Next == \/ \E i \in 1..Len(net) : NetDeliver(i)
         \/ Todo \/ GsArrive \/ GsToRq \/ GsToRs \/ GsQueue \/ BlockTodo
@@ -280,5 +296,5 @@ C19_CrossLogs == ch["B"].has =>
                    /\ IsSubSeq(ch["A"].rec.results, ch["B"].rec.results)
                    /\ ch["A"].rec.vouchers[1] = "v0" /\ ch["B"].rec.vouchers[1] = "v0"
 Constr == Len(h) <= MaxLen
-View == <<ch, net, gs, todo, lim, pauses, restarts, closes, vsent, bounces, done, Accepted, RecvdAll, SentFinal, SawFinishA, SawFinalA, BAppEnded>>
+View == <<ch, net, gs, todo, lim, pauses, restarts, closes, vsent, bounces, done, sfails, failIn, Accepted, RecvdAll, SentFinal, SawFinishA, SawFinalA, BAppEnded>>
 =============================================================================
